@@ -10,6 +10,7 @@ if ! git -C /repo show "$c" -- src | git -C "$wt" apply -R 2>/dev/null; then
   git -C /repo show "$c" -- src | git -C "$wt" apply -R --3way >/dev/null 2>&1 || { echo "cannot reverse-apply $c"; exit 3; }
 fi
 cd /verif
+export VERIF_EVIDENCE_DIR=/verif/scratch/evidence_scratch
 for p in "$@"; do
   out=$(VERIF_REPO="$wt" ./check "$p" --tier "${TIER:-quick}" 2>&1); rc=$?
   echo "== revert $c: $p rc=$rc $(echo "$out" | grep -E '^  tag=' | head -3 | tr '\n' ' ' | cut -c1-260)"
